@@ -355,6 +355,18 @@ func init() {
 					if _, err := writeSystem(orig[op["sys"].(string)], op["fmt"] == "r", path(op["file"])); err != nil {
 						fail("op %d write: %v", oi, err)
 					}
+				case "link":
+					// ln / ln -s: a second name for the same file
+					os.Remove(path(op["to"]))
+					var e error
+					if op["kind"] == "sym" {
+						e = os.Symlink(path(op["file"]), path(op["to"]))
+					} else {
+						e = os.Link(path(op["file"]), path(op["to"]))
+					}
+					if e != nil {
+						die("link: %v", e)
+					}
 				case "read", "convert":
 					var loaded *prover.ProvingSystem
 					var err error
